@@ -30,6 +30,7 @@ struct Index {
     fns: HashMap<String, ItemFn>,
     types: HashMap<String, Item>,
     impls: HashMap<String, Vec<ItemImpl>>,
+    copy_types: HashSet<String>,
 }
 
 fn type_last_ident(t: &Type) -> Option<String> {
@@ -67,6 +68,15 @@ fn index_items(prefix: &str, items: &[Item], idx: &mut Index) {
                 idx.types.insert(format!("{}::{}", prefix, e.ident), it.clone());
             }
             Item::Impl(im) => {
+                if let Some((_, tr, _)) = &im.trait_ {
+                    // `impl Copy for X` (what #[derive(Copy)] expands to): remembered so that the extracted
+                    // struct keeps its Copy-ness
+                    if tr.segments.last().map(|s| s.ident == "Copy").unwrap_or(false) {
+                        if let Some(name) = type_last_ident(&im.self_ty) {
+                            idx.copy_types.insert(format!("{}::{}", prefix, name));
+                        }
+                    }
+                }
                 if im.trait_.is_none() {
                     if let Some(name) = type_last_ident(&im.self_ty) {
                         idx.impls.entry(format!("{}::{}", prefix, name)).or_default().push(im.clone());
@@ -468,6 +478,81 @@ impl VisitMut for Lower {
 }
 
 // ---------------------------------------------------------------------------------------------
+// L8: `a | b` on the overflow flags returned by `overflowing_*`  ->  `a || b` (Verus rejects `|` on bool;
+// both operands are plain locals, so there is no evaluation-order difference).
+// D1: labels of blocks that no `break` targets are dropped.
+
+struct BoolFlags {
+    flags: HashSet<String>,
+}
+
+impl<'ast> syn::visit::Visit<'ast> for BoolFlags {
+    fn visit_local(&mut self, l: &'ast Local) {
+        if let (Pat::Tuple(t), Some(init)) = (&l.pat, &l.init) {
+            if let Expr::MethodCall(mc) = &*init.expr {
+                if mc.method.to_string().starts_with("overflowing_") && t.elems.len() == 2 {
+                    if let Pat::Ident(pi) = &t.elems[1] {
+                        self.flags.insert(pi.ident.to_string());
+                    }
+                }
+            }
+        }
+        syn::visit::visit_local(self, l);
+    }
+}
+
+struct BitOrToOr {
+    flags: HashSet<String>,
+    n: usize,
+}
+
+impl VisitMut for BitOrToOr {
+    fn visit_expr_mut(&mut self, e: &mut Expr) {
+        visit_mut::visit_expr_mut(self, e);
+        if let Expr::Binary(b) = e {
+            if matches!(b.op, BinOp::BitOr(_)) {
+                let is_flag = |x: &Expr| matches!(x, Expr::Path(p) if p.path.get_ident().map(|i| self.flags.contains(&i.to_string())).unwrap_or(false));
+                if is_flag(&b.left) && is_flag(&b.right) {
+                    let (l, r) = (&b.left, &b.right);
+                    self.n += 1;
+                    *e = parse_quote! { #l || #r };
+                }
+            }
+        }
+    }
+}
+
+struct LabelUse {
+    used: HashSet<String>,
+}
+impl<'ast> syn::visit::Visit<'ast> for LabelUse {
+    fn visit_expr_break(&mut self, b: &'ast ExprBreak) {
+        if let Some(l) = &b.label {
+            self.used.insert(l.ident.to_string());
+        }
+        syn::visit::visit_expr_break(self, b);
+    }
+    fn visit_expr_continue(&mut self, b: &'ast ExprContinue) {
+        if let Some(l) = &b.label {
+            self.used.insert(l.ident.to_string());
+        }
+    }
+}
+struct DropUnusedLabels {
+    used: HashSet<String>,
+}
+impl VisitMut for DropUnusedLabels {
+    fn visit_expr_block_mut(&mut self, b: &mut ExprBlock) {
+        if let Some(l) = &b.label {
+            if !self.used.contains(&l.name.ident.to_string()) {
+                b.label = None;
+            }
+        }
+        visit_mut::visit_expr_block_mut(self, b);
+    }
+}
+
+// ---------------------------------------------------------------------------------------------
 // L7: `loop { .. break EXPR; .. }` used for its value  ->  `{ let k2v_brk_N; loop { .. { k2v_brk_N = EXPR; break; } .. } k2v_brk_N }`
 // (Verus rejects break-with-value; deferred initialisation is the same control flow)
 
@@ -779,6 +864,17 @@ fn lower_fn_parts(sig: &mut Signature, block: &mut Block, errors: &mut Vec<Strin
     if mut_self {
         SelfToThis.visit_block_mut(block);
         block.stmts.insert(0, parse_quote! { let mut this__ = self; });
+    }
+    {
+        use syn::visit::Visit;
+        let mut bf = BoolFlags { flags: HashSet::new() };
+        bf.visit_block(block);
+        let mut bo = BitOrToOr { flags: bf.flags, n: 0 };
+        bo.visit_block_mut(block);
+        let mut lu = LabelUse { used: HashSet::new() };
+        lu.visit_block(block);
+        let mut dl = DropUnusedLabels { used: lu.used };
+        dl.visit_block_mut(block);
     }
     let mut lw = Lower { errors: Vec::new(), tmp: 0, n_slice_pats: 0, n_casts: 0, n_panics: 0 };
     lw.visit_block_mut(block);
@@ -1143,6 +1239,9 @@ fn main() {
                 let mut it = it.clone();
                 make_pub_fields(&mut it);
                 let mut ts = it.to_token_stream();
+                if idx.copy_types.contains(&path) {
+                    ts = quote! { #[derive(Clone, Copy)] #ts };
+                }
                 let mut fl = Flatten { known: &known, path_renames: Vec::new() };
                 ts = flatten_tokens(ts, &mut fl);
                 out.push_str(&format!("//@@ITEM type {}\n", path));
